@@ -1,11 +1,15 @@
 #!/bin/sh
-# run every seeded change against the check of its own property (applies to /repo, reverts after each)
+# run seeded changes (default dir /verif/seeded, override with SEEDED_DIR) against the check of their own property;
+# applies each patch to /repo, runs ./check <id>, undoes it; the clean-tree evidence files are put back at the end
 cd /verif
+dir=${SEEDED_DIR:-/verif/seeded}
+rm -rf /tmp/evid_backup && cp -r /verif/evidence /tmp/evid_backup
 for id in "$@"; do
-  echo "=== seeded $id"
-  git -C /repo apply /verif/seeded/$id/patch.diff || { echo "apply failed"; continue; }
+  echo "=== seeded $id ($dir)"
+  git -C /repo apply $dir/$id/patch.diff || { echo "apply failed"; continue; }
   ./check $id > /tmp/sweep_$id.log 2>/dev/null; rc=$?
   git -C /repo checkout -- .
   grep -E "^C[0-9]+ \[|VIOLATION|UNDECIDED|KNOWN|CHECKER" /tmp/sweep_$id.log | cut -c1-200 | head -6
   echo "   rc=$rc"
 done
+rm -rf /verif/evidence && mv /tmp/evid_backup /verif/evidence
